@@ -582,6 +582,22 @@ impl<'a> Gen<'a> {
         }
         self.locals = intents;
         let mut body = self.dexpr(&rv, depth);
+        // half of the bodies get a second summand / a comparison of the same dimension, so that inference has to
+        // identify the dimensions of different parameters
+        match self.rng.below(4) {
+            0 => {
+                let other = self.dexpr(&rv, depth.min(1));
+                let op = if self.rng.chance(1, 2) { Op::Add } else { Op::Sub };
+                body = E::Bin(op, Box::new(body), Box::new(other));
+            }
+            1 => {
+                let d = self.rand_dim_local();
+                let c = E::Cmp(Cmp::Lt, Box::new(self.dexpr(&d, 1)), Box::new(self.dexpr(&d, 0)));
+                let other = self.dexpr(&rv, depth.min(1));
+                body = E::If(Box::new(c), Box::new(body), Box::new(other));
+            }
+            _ => {}
+        }
         let locals = self.locals.clone();
         for (pn, t) in &locals {
             let mut used = false;
